@@ -487,6 +487,8 @@ fn run_access(st: &State, t: &mut Toks) -> PResult<String> {
 // ---------- fault-injecting writer (C05) ----------
 /// accepts `budget` octets in total and then fails; call i is capped / interrupted per `behav`
 struct FaultWrite {
+    /// when the budget is used up: fail with an error (false) or report "no room" the way a too-small `&mut [u8]` does, Ok(0) (true)
+    zero_when_full: bool,
     budget: usize,
     behav: std::collections::VecDeque<Option<usize>>,
     accepted: Vec<u8>,
@@ -501,6 +503,9 @@ impl std::io::Write for FaultWrite {
             Some(None) => Err(std::io::Error::new(std::io::ErrorKind::Interrupted, "interrupted")),
             b => {
                 if self.budget == 0 {
+                    if self.zero_when_full {
+                        return Ok(0);
+                    }
                     return Err(std::io::Error::new(std::io::ErrorKind::Other, "writer failed"));
                 }
                 let cap = match b {
@@ -528,7 +533,7 @@ fn run_faultwrite_avp(st: &State, t: &mut Toks) -> PResult<String> {
         None => return Ok("WA nobuild".into()),
     };
     let budget = t.u64()? as usize;
-    let mut w = FaultWrite { budget, behav: std::collections::VecDeque::new(), accepted: Vec::new() };
+    let mut w = FaultWrite { zero_when_full: false, budget, behav: std::collections::VecDeque::new(), accepted: Vec::new() };
     let r = a.encode_to(&mut w);
     let mut out = String::from(if r.is_ok() { "WA ok " } else { "WA err " });
     let _ = write!(out, "{:x} ", w.accepted.len());
@@ -544,9 +549,13 @@ fn run_faultwrite(st: &State, t: &mut Toks) -> PResult<String> {
             let budget = t.u64()? as usize;
             let n = t.usize_dec()?;
             let mut behav = std::collections::VecDeque::new();
+            let mut zero_when_full = false;
             for _ in 0..n {
                 let s = t.next()?;
-                if s == "i" {
+                if s == "z" {
+                    // not a per-call behaviour: once the budget is used up the writer says Ok(0) ("no room") instead of failing
+                    zero_when_full = true;
+                } else if s == "i" {
                     behav.push_back(None);
                 } else {
                     behav.push_back(Some(usize::from_str_radix(s, 16).map_err(|e| e.to_string())?));
@@ -557,7 +566,7 @@ fn run_faultwrite(st: &State, t: &mut Toks) -> PResult<String> {
             let q1 = m.encode_to(&mut p1).is_ok();
             let mut p2 = Vec::new();
             let q2 = m.encode_to(&mut p2).is_ok();
-            let mut w = FaultWrite { budget, behav, accepted: Vec::new() };
+            let mut w = FaultWrite { zero_when_full, budget, behav, accepted: Vec::new() };
             let r = m.encode_to(&mut w);
             let mut out = String::from(if r.is_ok() { "W ok " } else { "W err " });
             let _ = write!(out, "{:x} ", w.accepted.len());
@@ -673,7 +682,11 @@ fn run_decode(st: &State, t: &mut Toks) -> PResult<String> {
         .ok_or_else(|| "unknown dict".to_string())?
         .clone();
     let bytes = t.bytes()?;
-    Ok(decoded_obs(decode_isolated(bytes, dict)))
+    // as for decoded starting points: a frame that is exactly as long as it announces goes, in turn, through decode_from at
+    // position 0, through Codec::decode (what a connection does with it) and through decode_from at an offset
+    let announced = if bytes.len() >= 4 { ((bytes[1] as usize) << 16) | ((bytes[2] as usize) << 8) | bytes[3] as usize } else { 0 };
+    let via = if announced == bytes.len() && (20..=1024 * 1024).contains(&announced) { ((announced / 4 + bytes[bytes.len() - 1] as usize) % 3) as u8 } else { 0 };
+    Ok(decoded_obs(decode_isolated_via(bytes, dict, via)))
 }
 
 /// XO <dict> <k> <frame>: the frame sits k octets into the reader (junk before it, position set to k);
@@ -947,6 +960,19 @@ pub fn handle(st: &mut State, line: &str) -> String {
                 Ok(if same { "OK same-address".into() } else { "OK".into() })
             }
             // DADD <id> <op>: one more load / add applied to the EXISTING dictionary object (in place)
+            // DGLOBALPOISON: a program loads a malformed document into the library's process-wide DEFAULT_DICT; the loader
+            // panics while it holds the write lock (as it does on any malformed document), which poisons that lock
+            "DGLOBALPOISON" => {
+                let _ = std::thread::spawn(|| {
+                    let _ = catch_unwind(AssertUnwindSafe(|| {
+                        if let Ok(mut d) = diameter::dictionary::DEFAULT_DICT.write() {
+                            d.load_xml("<diameter><application id=\"x\"");
+                        }
+                    }));
+                })
+                .join();
+                Ok("OK".into())
+            }
             "DADD" => {
                 let id = t.next()?.to_string();
                 let op = parse_dop(&mut t)?;
@@ -981,6 +1007,7 @@ pub fn handle(st: &mut State, line: &str) -> String {
             "TLS" => crate::net::tls_cell(st, &mut t),
             "TLSPLAIN" => crate::net::tls_plain(st, &mut t),
             "TLSROT" => crate::net::tls_rotate(st, &mut t),
+            "TLSHIST" => crate::net::tls_history(st, &mut t),
             "NET" => crate::net::scenario(st, &mut t),
             "NETSLOW" => crate::net::slow_reader(st, &mut t),
             "RECONN" => crate::net::reconn(st, &mut t),
